@@ -852,6 +852,20 @@ def real_argnodes(edges, c, do_copy):
         return "raise-" + type(e).__name__, order
 
 
+class Lying:
+    """an iterable whose `len()` is not the number of items it yields (a table whose len is its row count and whose
+    iteration yields its column labels): `unpack` is about the ITEMS"""
+
+    def __init__(self, items, reported):
+        self.items, self.reported = items, reported
+
+    def __len__(self):
+        return self.reported
+
+    def __iter__(self):
+        return iter(range(self.items))
+
+
 def explore_small(ctx, n_edges_cases):
     rng = random.Random(ctx.seed * 8191 + 3)
     dis, lines, cases = [], [], []
@@ -867,7 +881,7 @@ def explore_small(ctx, n_edges_cases):
     for n in range(0, 7):
         for ln in range(0, 10):
             outs = []
-            for it in (list(range(ln)), iter(range(ln)), (x for x in range(ln))):
+            for it in (list(range(ln)), iter(range(ln)), (x for x in range(ln)), Lying(ln, n), Lying(ln, ln + 3)):
                 try:
                     t = _builtins.unpack(it, n)
                     outs.append("ok %d" % len(t) if t == tuple(range(ln)) else "wrong-items")
@@ -1083,6 +1097,16 @@ def replay(ctx, payload):
         except ValueError:
             got = "raise"
         want = "ok" if ln == n else "raise"
+        if got == want:
+            # the same with iterables whose len() differs from the number of items they yield
+            for rep in (n, ln + 3):
+                try:
+                    t = _builtins.unpack(Lying(ln, rep), n)
+                    g2 = "ok" if t == tuple(range(ln)) else "wrong-items"
+                except ValueError:
+                    g2 = "raise"
+                if g2 != want:
+                    return "unpack(iterable of %d items whose len() says %d, %d) gave %s" % (ln, rep, n, g2)
         return None if got == want else "unpack(iterable of %d items, %d) gave %s" % (ln, n, got)
     if "prog" not in w:
         return None
